@@ -287,9 +287,14 @@ impl<'a, 'b> Gram<'a, 'b> {
             10 => {
                 self.w("(");
                 self.expr();
-                self.w(", ");
-                self.expr();
-                self.w(")")
+                if self.c.chance(1, 3) {
+                    // one-element tuple: the comma is mandatory
+                    self.w(",)")
+                } else {
+                    self.w(", ");
+                    self.expr();
+                    self.w(")")
+                }
             }
             11 => {
                 self.expr();
